@@ -11,7 +11,7 @@ RULE = (
     "(cells from the C02 pools, classified by M-field; Text cells of delimited data also with line breaks inside) written one by one (write_row, or write_rows with one row) through cutplace.Writer bound to delimited and "
     "fixed CIDs (a sixth of them named by the path of a CID file) with header 0-1, optional IsUnique and DistinctCount checks (in both declaration orders) and every fixed line-delimiter setting. After "
     "every write_row the stream is inspected: it must have grown by exactly the encoding of the row iff M-writer accepts "
-    "the row; close() must fail iff the distinct-count model fails; the same rows handed in bulk to write_rows() of a second writer (continued after every rejection) must produce the same output and end verdict; the output is read back with cutplace.rows under a "
+    "the row; close() must fail iff the distinct-count model fails; the same rows written to a file named by its path must leave, after close() (also a close() that fails for a whole-file check), the same text in the file; the same rows handed in bulk to write_rows() of a second writer (continued after every rejection) must produce the same output and end verdict; the output is read back with cutplace.rows under a "
     "fresh CID and must be accepted completely (its end-of-data verdict being the one of the whole-file checks over the written rows) and equal the written values (modulo fixed padding). A case is (CID, row "
     "sequence), distinct by digest, non-trivial with at least one accepted and one rejected row."
 )
@@ -231,6 +231,36 @@ def check_case(ctx, model, rows, cid_by_path=False, one_by_one_through_write_row
     if output is None:
         ctx.inconclusive_because("writer closed a stream it did not open")
         return
+    # ---- the same rows written to a file named by its path: when close() has returned - or has failed for a whole-file
+    # check - the file holds what the stream holds
+    file_path = os.path.join(ctx.tmp, "c14_target.txt")
+    try:
+        file_writer = cutplace.Writer(gen.load_cid(model), file_path)
+        for row in rows:
+            try:
+                file_writer.write_row(row)
+            except errors.DataError:
+                pass
+        try:
+            file_writer.close()
+        except errors.CheckError:
+            ctx.count("file-targets.close-failed-for-a-check")
+        with open(file_path, encoding="utf-8", newline="") as f:
+            file_text = f.read()
+        ctx.count("file-targets.judged")
+        if file_text != output:
+            ctx.violation("C14:file-differs-from-stream", case, "after close() the file named by a path does not hold the rows the writer accepted",
+                          expected=output, observed=file_text)
+            return
+    except Exception as error:
+        from cpverif import core
+
+        mod, fn = core.innermost_cutplace_frame(error)
+        ctx.violation("C14:file-target-crash:%s@%s.%s" % (type(error).__name__, mod, fn), case, "writing the rows to a file failed with an internal error", observed=error)
+        return
+    finally:
+        if os.path.exists(file_path):
+            os.remove(file_path)
     # ---- the same rows handed over in bulk: write_rows() stops at a rejected row, and calling it again with what is
     # left of the iterator carries on - the result has to be what row-by-row writing produced
     bulk_target = io.StringIO(newline="")
@@ -383,6 +413,12 @@ def run(ctx):
     for i in range(ctx.pick(90, 1800)):
         if ctx.mine(i):
             encoding_refusals(ctx, i)
+    if ctx.mine(0):
+        # the smallest history of the open finding (9.3), so that every run meets it: the value z is only ever seen in
+        # a row that the later-declared IsUnique check rejects
+        fields = [{"name": "a", "type": "Text", "empty": False, "length": "", "rule": ""}, {"name": "b", "type": "Text", "empty": False, "length": "", "rule": ""}]
+        checks = [{"desc": "dist", "type": "DistinctCount", "field": "b", "op": ">=", "n": 3}, {"desc": "uniq", "type": "IsUnique", "fields": ["a"]}]
+        check_case(ctx, RM.CidModel("delimited", fields, checks), [["1", "x"], ["2", "y"], ["1", "z"]])
     ctx.floor("writes.judged", 1000)
     ctx.floor("readbacks.judged", 200)
     n = ctx.pick(1500, 75000)
